@@ -1149,6 +1149,7 @@ PARTS = [
                  'mapping-does-not-fit': 0.04, 'stash-resid': 0.5, 'old-resid-differs': 0.2, 'cross-linked': 0.02,
                  'residue-split-over-placements': 0.015, 'normalized': 0.08, 'via-system': 0.1}),
     Part('shipped', _run_shipped, strategy=_strategy_shipped, examples={'quick': 160, 'thorough': 3000},
+         shrink_budget={'quick': 40, 'thorough': 400}, max_rounds=3,   # ~0.25 s per case
          floors={'nontrivial': 0.4, 'shared-atom': 0.05, 'unmapped-heavy': 0.1, 'clean': 0.3, 'nonmonotone-order': 0.1,
                  'disulfide': 0.05, 'nonadjacent-bond': 0.1}),
 ]
